@@ -84,6 +84,9 @@ BdAckEv(st, e) ==
     IF st.srvdead THEN Bad(st, "HARNESS: acknowledge from a dead server")
     ELSE IF ~BdAckLegal(bd, e.r) THEN Bad(st, "HARNESS: reference server acknowledge is not <<ackseq = accepted, blksize 1..127>>")
     ELSE IF bd.ph \notin {"waitack", "blk"} THEN Bad(st, "HARNESS: acknowledge in the wrong phase")
+    \* the server's own time-out answered an incomplete sub-block: legitimate only after a loss
+    ELSE IF bd.ph = "blk" /\ ~st.dist /\ bd.lossBlk = 0 /\ bd.losses = 0
+      THEN Bad(st, "the client stopped sending before the sub-block was complete (block size announced by the server not honoured)")
     ELSE Good([st EXCEPT !.bd = BdAfterAck(bd, e.r), !.srvdead = (e.kind = "abort"),
                          !.needTA = st.needTA \/ e.kind = "drop",
                          !.lossonly = st.lossonly /\ e.kind = "none",
